@@ -12,6 +12,12 @@ package main
 //	(b) byte mutations of engine-written files go through the public helpers and
 //	    through Query with a MemoryMetaStore holding the good metadata and with the
 //	    FileSystemDataStore as its own MetaStore.
+//	(c) the verification fields of a block (RowDataHash, HasRowDataHash, Compression,
+//	    UncompressedSize) run through their own boundary sets against the three block
+//	    readers (decodeBlockRowData, ReadDataBlockRowData, readPooledBlockRowData), and
+//	    engine-written blocks whose content is solved so that the recorded CRC32C is a
+//	    chosen value (0, all ones, the sign bit, 1) are corrupted and queried like (b):
+//	    no value of a recorded checksum may switch verification off.
 //
 // The whole command runs in a child process with an address-space limit: a panic
 // inside an engine goroutine or a fatal out-of-memory takes the child down and
@@ -35,6 +41,8 @@ import (
 
 	"github.com/bits-and-blooms/bloom/v3"
 	bs "github.com/danthegoodman1/bloomsearch"
+	"github.com/klauspost/compress/snappy"
+	"github.com/klauspost/compress/zstd"
 )
 
 func init() { register("c19", []string{"C19"}, runC19) }
@@ -78,13 +86,17 @@ func runC19(c *Ctx) {
 		"malformed JSON payloads, versions, magic and sizes; the same boundary sets against validate, validateFilterSection, planBlockFilterReads; " +
 		"blockFilterCursor passes over laid-out regions (gaps, overlaps, out-of-order, zero-size, invalid, cap boundaries, truncated files). " +
 		"(b) bit flips, byte bursts, truncations, extensions, splices, zero fills and swaps of engine-written files, read through the helpers (own and held metadata), " +
-		"queried through both MetaStores and merged. Non-trivial: a footer case whose CRC is consistent; a mutation that changes the file; distinct by case text."
+		"queried through both MetaStores and merged. (c) block verification fields: recorded checksum in a boundary set around 0, all ones, the true CRC and one-bit neighbours, " +
+		"with and without HasRowDataHash, all compression spellings, intact and damaged bytes, through the three block readers; engine-written uncompressed blocks whose row content is " +
+		"solved (CRC32C is affine over GF(2)) so that the recorded checksum is 0 / 0xFFFFFFFF / 0x80000000 / 1, then row-data mutations through helpers and queries. Non-trivial: a footer case whose CRC is consistent; a mutation that changes the file; distinct by case text."
 	c19Validate(c)
 	c19Plan(c)
 	c19Footers(c)
 	c19Cursor(c)
 	c19Streams(c)
+	c19DecodeFields(c)
 	c19Mutations(c)
+	c19ChosenChecksums(c)
 	c19SectionSwap(c)
 }
 
@@ -1014,6 +1026,302 @@ func c19Streams(c *Ctx) {
 		sh.add(c, term, desc)
 		c.count([]string{"C19"}, term, how != "valid", desc)
 		c.dist("c19_section", fmt.Sprintf("%s accepted=%v", how, err == nil))
+	}
+}
+
+// ---------------------------------------------------------------- (c1) block verification fields against the block readers
+
+func tCompress(comp bs.CompressionType, data []byte) []byte {
+	var buf bytes.Buffer
+	switch comp {
+	case bs.CompressionSnappy:
+		w := snappy.NewBufferedWriter(&buf)
+		_, err := w.Write(data)
+		must(err)
+		must(w.Close())
+	case bs.CompressionZstd:
+		w, err := zstd.NewWriter(&buf, zstd.WithEncoderConcurrency(1))
+		must(err)
+		_, err = w.Write(data)
+		must(err)
+		must(w.Close())
+	default:
+		buf.Write(data)
+	}
+	return buf.Bytes()
+}
+
+// c19DecodeFields: metadata held by a MetaStore is trusted for *where* a block is, never for *what* it
+// holds: whatever value the recorded checksum has, a reader may only hand out bytes whose CRC32C equals it.
+func c19DecodeFields(c *Ctx) {
+	sh := c.newShard("t19d", runnerT, "caseT", "mismatches", "violations")
+	sh.limit = 150
+	comps := []bs.CompressionType{bs.CompressionNone, "", bs.CompressionSnappy, bs.CompressionZstd, bs.CompressionNone, "lz4"}
+	for i := 0; i < c.pick(360, 8000); i++ {
+		var data []byte
+		n := 1 + c.intn(4)
+		for j := 0; j < n; j++ {
+			row := []byte(fmt.Sprintf(`{"id":%d,"v":"%s"}`, j, strings.Repeat("y", c.intn(24))))
+			data = binary.LittleEndian.AppendUint32(data, uint32(len(row)))
+			data = append(data, row...)
+		}
+		comp := comps[c.intn(len(comps))]
+		stored := tCompress(comp, data)
+		actual := crc32.Checksum(stored, crcTab)
+		damage := "intact"
+		if c.chance(0.6) {
+			stored = append([]byte(nil), stored...)
+			switch c.intn(3) {
+			case 0:
+				stored[c.intn(len(stored))] ^= 1 << c.intn(8)
+				damage = "bitflip"
+			case 1:
+				p := c.intn(len(stored))
+				for k := p; k < p+4 && k < len(stored); k++ {
+					stored[k] = byte(c.rng.Uint32())
+				}
+				damage = "burst"
+			case 2:
+				stored = stored[:len(stored)-1-c.intn(min(len(stored)-1, 6))]
+				damage = "truncated"
+			}
+		}
+		now := crc32.Checksum(stored, crcTab)
+		hashes := []uint32{0, 0, 1, 0x7fffffff, 0x80000000, math.MaxUint32, actual, actual, actual ^ 1, actual ^ 0x80000000, ^actual, now, c.rng.Uint32()}
+		hash := hashes[c.intn(len(hashes))]
+		has := c.chance(0.8)
+		usize := len(data)
+		if c.chance(0.15) {
+			usize = int(c.pickI64([]int64{0, 1, int64(len(data)) - 1, int64(len(data)) + 1, -1, 1 << 20}))
+		}
+		b := bs.DataBlockMetadata{RowDataOffset: 0, RowDataSize: len(stored), Rows: n, UncompressedSize: usize, Compression: comp, RowDataHash: hash, HasRowDataHash: has}
+		desc := map[string]any{"kind": "decode-fields", "compression": string(comp), "damage": damage, "recorded_hash": hash, "has_hash": has, "crc_of_bytes": now,
+			"uncompressed_size": usize, "stored_hex": fmt.Sprintf("%x", stored)}
+		c19Progress(fmt.Sprintf("decode fields %v", desc))
+		type res struct {
+			out []byte
+			err error
+		}
+		var r [3]res
+		names := []string{"decodeBlockRowData", "ReadDataBlockRowData", "readPooledBlockRowData"}
+		panicked := safeCall(func() {
+			r[0].out, r[0].err = bs.VerifDecodeBlockRowData(append([]byte(nil), stored...), &b)
+			r[1].out, r[1].err = bs.ReadDataBlockRowData(bytes.NewReader(stored), &b)
+			rd, release, err := bs.VerifReadPooledBlockRowData(bytes.NewReader(stored), &b)
+			r[2].err = err
+			if err == nil {
+				r[2].out = append([]byte(nil), rd...)
+				release()
+			}
+		})
+		if panicked != "" {
+			c.violation("c19-panic", "a block reader panicked on CRC-consistent block metadata: "+panicked, desc)
+			continue
+		}
+		for k := range r {
+			if r[k].err == nil && has && now != hash {
+				c.violation("c19-unverified-rows", fmt.Sprintf("%s returned row data whose CRC32C %08x is not the recorded checksum %08x (HasRowDataHash is set)", names[k], now, hash), desc)
+			}
+			if k == 2 && usize < 0 {
+				continue // the pooled reader refuses a negative UncompressedSize up front, whatever the compression
+			}
+			if (r[k].err == nil) != (r[0].err == nil) || (r[k].err == nil && !bytes.Equal(r[k].out, r[0].out)) {
+				c.mismatch("c19-readers-disagree", fmt.Sprintf("%s and decodeBlockRowData disagree on the same block (%v / %v)", names[k], r[k].err, r[0].err), desc)
+			}
+		}
+		ztab := "[]"
+		if comp == bs.CompressionSnappy || comp == bs.CompressionZstd {
+			d, ok := libDecompress(comp, stored, 1<<22)
+			ztab = coqList([]string{coqPair(coqStr(stored), coqOptStr(d, ok))})
+		}
+		term := fmt.Sprintf("TDecode %s %s %s %s", coqBlockJ(&b), coqStr(stored), ztab, coqOptStr(r[0].out, r[0].err == nil))
+		sh.add(c, term, desc)
+		c.count([]string{"C19"}, term, has, desc)
+		c.dist("c19_decode_fields", fmt.Sprintf("%s has_hash=%v hash_matches=%v accepted=%v", coqComp(comp), has, now == hash, r[0].err == nil))
+		if has && (hash == 0 || hash == math.MaxUint32) {
+			c.dist("c19_decode_extreme_hash", fmt.Sprintf("recorded=%08x matches=%v accepted=%v", hash, now == hash, r[0].err == nil))
+		}
+	}
+}
+
+// ---------------------------------------------------------------- (c2) engine-written blocks with a chosen checksum
+
+// c19SolveRow chooses the characters of row["pad"] (each 'a' or 'c': a one-bit difference -- a two-bit one
+// such as 'a'/'b' only reaches half of the targets, the Castagnoli polynomial has the factor x+1) so that the block holding exactly this
+// row, stored uncompressed -- le32(len) ++ json.Marshal(row) -- has CRC32C target. CRC32C is affine over
+// GF(2): flipping pad character i changes the checksum by a vector that does not depend on the other
+// characters, so the choice is a linear system over 32 bits (Gaussian elimination).
+func c19SolveRow(row map[string]any, padLen int, target uint32) bool {
+	row["pad"] = strings.Repeat("a", padLen)
+	j, err := json.Marshal(row)
+	must(err)
+	frame := append(binary.LittleEndian.AppendUint32(nil, uint32(len(j))), j...)
+	at := bytes.Index(frame, []byte(`"pad":"`))
+	if at < 0 {
+		return false
+	}
+	at += len(`"pad":"`)
+	base := crc32.Checksum(frame, crcTab)
+	type vec struct {
+		bits uint32
+		who  []bool
+	}
+	var basis [32]*vec
+	for i := 0; i < padLen; i++ {
+		frame[at+i] ^= 'a' ^ 'c'
+		v := &vec{bits: crc32.Checksum(frame, crcTab) ^ base, who: make([]bool, padLen)}
+		frame[at+i] ^= 'a' ^ 'c'
+		v.who[i] = true
+		for bit := 31; bit >= 0 && v.bits != 0; bit-- {
+			if v.bits&(1<<bit) == 0 {
+				continue
+			}
+			if basis[bit] == nil {
+				basis[bit] = v
+				break
+			}
+			v.bits ^= basis[bit].bits
+			for k := range v.who {
+				v.who[k] = v.who[k] != basis[bit].who[k]
+			}
+		}
+	}
+	rem := target ^ base
+	flip := make([]bool, padLen)
+	for bit := 31; bit >= 0; bit-- {
+		if rem&(1<<bit) == 0 {
+			continue
+		}
+		if basis[bit] == nil {
+			return false
+		}
+		rem ^= basis[bit].bits
+		for k := range flip {
+			flip[k] = flip[k] != basis[bit].who[k]
+		}
+	}
+	pad := []byte(strings.Repeat("a", padLen))
+	for k, f := range flip {
+		if f {
+			pad[k] = 'c'
+		}
+	}
+	row["pad"] = string(pad)
+	j, err = json.Marshal(row)
+	must(err)
+	frame = append(binary.LittleEndian.AppendUint32(nil, uint32(len(j))), j...)
+	return crc32.Checksum(frame, crcTab) == target
+}
+
+// c19ChosenChecksums: a world whose every block holds one row solved for a chosen checksum value,
+// written by a real engine (uncompressed, one partition per row), then corrupted inside the row data.
+func c19ChosenChecksums(c *Ctx) {
+	shm := c.newShard("t19k", runnerT, "caseT", "mismatches", "violations")
+	shm.limit = 40
+	targets := []uint32{0, 0, math.MaxUint32, 0x80000000, 1}
+	for wi := 0; wi < c.pick(2, 16); wi++ {
+		tc := c.tGenConfig()
+		tc.cfg.RowDataCompression = bs.CompressionNone
+		tc.cfg.MinMaxIndexes = nil
+		tc.cfg.PartitionFunc = func(row map[string]any) string { p, _ := row["p"].(string); return p }
+		tc.cfg.MaxBufferedRows = 1000
+		tc.desc = fmt.Sprintf("uncompressed, one row per partition and block, row content solved for a chosen CRC32C, fpr=%g", tc.cfg.BloomFalsePositiveRate)
+		w := c.tNewWorld(tc)
+		n := 5 + c.intn(4)
+		rows := make([]map[string]any, 0, n)
+		wantHash := map[int]uint32{}
+		for i := 0; i < n; i++ {
+			row := map[string]any{"id": i, "p": fmt.Sprintf("p%d", i), "tag": []string{"red", "green", "blue"}[i%3], "msg": c.tText()}
+			target := targets[(i+wi)%len(targets)]
+			if !c19SolveRow(row, 64+c.intn(16), target) {
+				c.dist("c19_chosen_checksum", "unsolvable (skipped)")
+				continue
+			}
+			wantHash[i] = target
+			rows = append(rows, row)
+		}
+		ctx := context.Background()
+		for _, r := range rows {
+			id := r["id"].(int)
+			b, err := json.Marshal(r)
+			must(err)
+			w.rows[id], w.json[id] = r, b
+		}
+		half := len(rows) / 2
+		for _, part := range [][]map[string]any{rows[:half], rows[half:]} {
+			if len(part) == 0 {
+				continue
+			}
+			must(w.eng.IngestRows(ctx, part, nil))
+			must(w.eng.Flush(ctx))
+		}
+		w.stop()
+		files := w.files()
+		// which blocks carry the value they were solved for (the harness's assumption about the stored form is checked, not trusted)
+		type loc struct {
+			f, b int
+			hash uint32
+		}
+		var locs []loc
+		for fi, f := range files {
+			for bi := range f.meta.DataBlocks {
+				b := f.meta.DataBlocks[bi]
+				rd, err := bs.ReadDataBlockRowData(bytes.NewReader(f.data), &b)
+				if err != nil {
+					continue
+				}
+				first, ok, _ := bs.NewBlockRowScanner(rd).Next()
+				id, has := tRowID(first)
+				if ok && has && b.HasRowDataHash && b.RowDataHash == wantHash[id] && b.Rows == 1 {
+					locs = append(locs, loc{fi, bi, b.RowDataHash})
+					c.dist("c19_chosen_checksum", fmt.Sprintf("block recorded with RowDataHash=%08x", b.RowDataHash))
+				} else {
+					c.dist("c19_chosen_checksum", "block did not take the chosen value")
+				}
+			}
+		}
+		if len(locs) == 0 {
+			c.rep.Notes = append(c.rep.Notes, "chosen-checksum world: no block took its chosen checksum (the stored form of a row is no longer le32(len) ++ json.Marshal(row), or blocks hold several rows)")
+			continue
+		}
+		queries := []*bs.Query{nil, bs.NewQuery().Field("tag").Build(), bs.NewQuery().Token("green").Build(), bs.NewQuery().FieldToken("tag", "red").Build()}
+		want := make([]map[int]int, len(queries))
+		for qi, q := range queries {
+			got, qerr, serr := collect(w.eng, q)
+			if qerr != nil || serr != nil {
+				c.violation("c19-healthy-query", fmt.Sprintf("query on the uncorrupted store failed: %v %v", qerr, serr), nil)
+			}
+			want[qi] = idCounts(got)
+		}
+		for mi := 0; mi < c.pick(18, 60); mi++ {
+			l := locs[c.intn(len(locs))]
+			f := files[l.f]
+			b := f.meta.DataBlocks[l.b]
+			var others [][]byte
+			for j, o := range files {
+				if j != l.f {
+					others = append(others, o.data)
+				}
+			}
+			var m mutation
+			switch c.intn(4) {
+			case 0: // one character of the row text (the row stays well-formed JSON)
+				out := append([]byte(nil), f.data...)
+				p := b.RowDataOffset + 4 + bytes.Index(f.data[b.RowDataOffset+4:b.RowDataOffset+b.RowDataSize], []byte(`"pad":"`)) + len(`"pad":"`) + c.intn(32)
+				out[p] ^= 'a' ^ 'c'
+				m = mutation{"pad-character", out}
+			case 1: // one bit anywhere in the block
+				out := append([]byte(nil), f.data...)
+				out[b.RowDataOffset+c.intn(b.RowDataSize)] ^= 1 << c.intn(8)
+				m = mutation{"bitflip", out}
+			default:
+				m = c.mutate(f.data, others, [2]int{b.RowDataOffset, b.RowDataOffset + b.RowDataSize})
+			}
+			if bytes.Equal(m.data, f.data) {
+				continue
+			}
+			c19MutationCase(c, shm, w, files, l.f, m, fmt.Sprintf("rowdata of a block whose recorded checksum is %08x", l.hash), queries, want, 2000+wi)
+		}
 	}
 }
 
